@@ -454,14 +454,12 @@ func parseStops(csv *csv.File, inheritWheelchairBoarding bool) []Stop {
 
 	var stops []Stop
 	stopIdToIndex := map[string]int{}
-	stopIdToParent := map[string]string{}
+	// The parent_station value of each accepted row; parallel to stops.
+	var parentStopIds []string
 	for csv.NextRow() {
 		stopID := idColumn.Read()
-		hasParentStop := false
-		if parentStopId := parentStationColumn.Read(); parentStopId != "" {
-			stopIdToParent[stopID] = parentStopId
-			hasParentStop = true
-		}
+		parentStopId := parentStationColumn.Read()
+		hasParentStop := parentStopId != ""
 		stop := Stop{
 			Id:                 stopID,
 			Code:               codeColumn.Read(),
@@ -482,13 +480,17 @@ func parseStops(csv *csv.File, inheritWheelchairBoarding bool) []Stop {
 		}
 		stopIdToIndex[stop.Id] = len(stops)
 		stops = append(stops, stop)
+		parentStopIds = append(parentStopIds, parentStopId)
 	}
-	for stopId, parentStopId := range stopIdToParent {
+	for i, parentStopId := range parentStopIds {
+		if parentStopId == "" {
+			continue
+		}
 		parentStopIndex, ok := stopIdToIndex[parentStopId]
 		if !ok {
 			continue
 		}
-		stops[stopIdToIndex[stopId]].Parent = &stops[parentStopIndex]
+		stops[i].Parent = &stops[parentStopIndex]
 	}
 
 	// Inherit wheelchair boarding from parent stops if specified.
